@@ -116,6 +116,9 @@ func init() {
 				p.MaxOps = 120
 			}
 			pl := v1x.MakePlan(c.Rng, p)
+			if v1x.EmptyKeyVariant(pl, c.Index) {
+				c.Obs("histories_with_the_empty_key", 1)
+			}
 			normal := c.Index%4 == 3
 			if normal {
 				pl = normalize(pl)
